@@ -261,7 +261,7 @@ def statement(ctx, g0, r, mn, stats=None):
 def correspondence(ctx):
     boundary_sweep(ctx, 150 if ctx.tier == 'quick' else 3000)
     rng = random.Random(ctx.seed)
-    groups = gen(rng, 60 if ctx.tier == 'quick' else 2500)
+    groups = gen(rng, 60 if ctx.tier == "quick" else 900)     # thorough: 15x quick (2500 needed > 40 min on a loaded machine)
     res = ctx.run_impl('c05_impl.py', {'groups': groups})
     h, mn = res['constants']['h']['value'], res['constants']['m_n']['value']
     terms, descs = [], []
